@@ -32,7 +32,7 @@ type Entry struct {
 var buckets = map[string]func(fx *Fixture) string{
 	"A": func(fx *Fixture) string { return fx.BktA }, "B": func(fx *Fixture) string { return fx.BktB },
 	"V": func(fx *Fixture) string { return fx.BktV }, "L": func(fx *Fixture) string { return fx.BktL },
-	"O": func(fx *Fixture) string { return fx.BktO },
+	"O":   func(fx *Fixture) string { return fx.BktO },
 	"new": func(*Fixture) string { return "bkt-new" }, "missing": func(*Fixture) string { return "bkt-missing" },
 }
 
@@ -186,6 +186,13 @@ var Entries = []Entry{
 	}},
 	{Name: "DeleteObjectVersion", Method: "DELETE", Level: "object", Mutates: true, Action: "s3:DeleteObjectVersion", Perm: "WRITE", build: func(fx *Fixture, b, k string, sp Spec) *s3c.Req {
 		return &s3c.Req{Method: "DELETE", Path: path(b, k, sp), Query: q("versionId", fx.ver())}
+	}},
+	// the version every object has, also in a bucket that never saw versioning: "null"
+	{Name: "GetObjectNullVersion", Method: "GET", Level: "object", Action: "s3:GetObjectVersion", Perm: "READ", build: func(fx *Fixture, b, k string, sp Spec) *s3c.Req {
+		return &s3c.Req{Method: "GET", Path: path(b, k, sp), Query: q("versionId", "null")}
+	}},
+	{Name: "DeleteObjectNullVersion", Method: "DELETE", Level: "object", Mutates: true, Action: "s3:DeleteObjectVersion", Perm: "WRITE", build: func(fx *Fixture, b, k string, sp Spec) *s3c.Req {
+		return &s3c.Req{Method: "DELETE", Path: path(b, k, sp), Query: q("versionId", "null")}
 	}},
 	// ---- admin ----
 	{Name: "AdminCreateUser", Method: "PATCH", Level: "admin", Mutates: true, build: func(fx *Fixture, b, k string, sp Spec) *s3c.Req {
